@@ -37,9 +37,8 @@ class VmStackList(TlbScheme):
         builder = Builder()
         if len(data) == 0:
             return builder.end_cell()
-        value = data.pop()
-        builder.store_ref(cls.serialize(data))
-        return builder.store_cell(VmStackValue.serialize(value)).end_cell()
+        builder.store_ref(cls.serialize(data[:-1]))  # the caller's list is left as it is
+        return builder.store_cell(VmStackValue.serialize(data[-1])).end_cell()
 
     @classmethod
     def deserialize(cls, cell_slice: Slice, n_p_1: int):  # n_p_1 stands for n plus 1 or n + 1
